@@ -177,3 +177,39 @@ def gen_psms(mults, offset=0, file_idx=0, key_cols=2, label_enc="pm1", scan_base
         spectrum = ["filename", "ScanNr", "ret_time", "ExpMass"]
     cols += ["f_key", "f2", "Peptide", "Proteins"]
     return df[cols], spectrum
+
+
+# --- size constants that a module may have (or get): part of the configuration space ---------------------------------
+_SIZE_WORDS = ("CHUNK", "SIZE", "BATCH", "BUFFER", "BLOCK")
+
+
+def size_constants(module):
+    """Names of the module's capitalised integer globals that look like a chunk / batch / buffer size.
+
+    mokapot reads such constants from MOKAPOT_* environment variables (mokapot/constants.py); whatever a result
+    promises must hold for every value of them, so checks re-run their small families with these set to 1..3.
+    A module without such a constant yields [] and the dimension is empty (reported as such in the evidence)."""
+    out = []
+    for k, v in vars(module).items():
+        if k.isupper() and isinstance(v, int) and not isinstance(v, bool) and v > 3 and any(w in k for w in _SIZE_WORDS):
+            out.append(k)
+    return sorted(out)
+
+
+class Sized:
+    """with Sized(module, 2): ...  - every size constant of the module is 2 inside the block."""
+
+    def __init__(self, module, value, names=None):
+        self.m, self.v = module, value
+        self.names = size_constants(module) if names is None else names
+        self.old = {}
+
+    def __enter__(self):
+        for k in self.names:
+            self.old[k] = getattr(self.m, k)
+            setattr(self.m, k, self.v)
+        return self
+
+    def __exit__(self, *a):
+        for k, v in self.old.items():
+            setattr(self.m, k, v)
